@@ -311,11 +311,18 @@ def value_forms(T, syn, prop="C10"):
     ps = syn.fn("parse_serde_attrs", "utils.rs")
     drops = ps is not None and any(e["kind"] == "mcall" and e["method"] == "ok" for e in ps["events"])
     r.inst(fn="utils::parse_serde_attrs", failing_list_dropped_whole=drops)
+    with open(os.path.join(VERIF, "reference/serde_keys.json")) as fh:
+        other = json.load(fh).get("other_forms", {})
     for x, keys in ref.items():
         t = T.get("Serde<%s>" % x)
         if t is None:
             continue
         arms = {k: a for a in t.arms for k in a["keys"]}
+        keys = dict(other.get(x, {}), **keys)
+        for k in sorted(set(arms) - set(keys)):
+            r.fail(prop, "serde-key-without-reference Serde<%s>.%s" % (x, k),
+                   "the serde key `%s` has an arm but reference/serde_keys.json does not say which value forms serde accepts for it: the arm cannot be judged" % k,
+                   arms[k]["file"], arms[k]["line"])
         for k, forms in keys.items():
             if k not in arms:
                 continue
@@ -326,6 +333,13 @@ def value_forms(T, syn, prop="C10"):
                 cf = tables.closure_fallback(t)
                 recovered = bool(cf and cf["no_error_exit"] and cf["skip_on_every_non_true_path"])
             r.inst(position=x, key=k, serde_accepts=forms, arm_accepts=sorted(have), missing=missing, failure_recovered_per_key=recovered)
+            # an arm that consumes nothing reports success; if serde also allows `key = ".."` the value is left in the stream,
+            # the separator is not found, and the list fails as a whole - per-key recovery never sees a failure
+            if "bare" in have and not arms[k]["parsers"] and not arms[k]["peeks"] and [m for m in missing if m != "bare"] and drops:
+                r.fail(prop, "serde-flag-arm-leaves-value Serde<%s>.%s" % (x, k),
+                       "the arm for `%s` consumes nothing and succeeds, but serde also accepts `%s = \"..\"`: the unread value breaks the `,` that follows and the whole #[serde(..)] list is dropped" % (k, k),
+                       arms[k]["file"], arms[k]["line"])
+                continue
             if missing and drops and not recovered:
                 for m in missing:
                     r.fail(prop, "serde-value-failure-drops-list Serde<%s>.%s(%s)" % (x, k, m),
@@ -519,7 +533,7 @@ def run(ctx):
         if fs == "default":
             nd = ctx.mir("nodefault") if ctx.tier == "thorough" else None
             from rules import templates as TT
-            res += [ts_wins(syn, c), feature_gate(syn, nd), value_forms(T, syn), TT.written_value_rule(syn, "C10")]
+            res += [ts_wins(syn, c), feature_gate(syn, nd), value_forms(T, syn), TT.written_value_rule(syn, "C10"), TT.post_merge_rule(c, "C10")]
         for r in res:
             if fs != "default":
                 r.rule += "@" + fs
